@@ -106,6 +106,60 @@ def cursor_owner(ctx):
     ctx.check(not ext, "external", "mako/", "cursor stored outside lexer.py: %s" % [db.where(e) for e in ext], "no external writer")
 
 
+def _is_matcher_call(e):
+    return isinstance(e, ast.Call) and (dotted(e.func) or "").startswith("self.match")
+
+
+def _back_edges(body):
+    """[(exit statement or None for the end of the body, matched?, description)] for every path through a lexing loop's body that
+    starts another iteration.  `matched` is True when the path is known to have seen a matcher succeed in this iteration:
+    a test `if self.match_x():` taken, or a variable assigned from self.match(...) in this iteration and then found true"""
+    out = []
+
+    def learn(test, truth, st):
+        if isinstance(test, ast.UnaryOp) and isinstance(test.op, ast.Not):
+            return learn(test.operand, not truth, st)
+        if isinstance(test, ast.BoolOp):
+            if (isinstance(test.op, ast.And) and truth) or (isinstance(test.op, ast.Or) and not truth):
+                for v in test.values:
+                    st = learn(v, truth, st)
+            return st
+        if _is_matcher_call(test):
+            return dict(st, **{"\0any": True}) if truth else st
+        if isinstance(test, ast.Name) and test.id in st:
+            return dict(st, **{test.id: truth})
+        return st
+
+    def go(todo, st, trail):
+        if len(out) > 4096:
+            raise AnalysisError("too many paths through the lexing loop")
+        if not todo:
+            out.append((None, st, trail))
+            return
+        s, rest = todo[0], todo[1:]
+        if isinstance(s, ast.If):
+            go(list(s.body) + rest, learn(s.test, True, st), trail + [(s, True)])
+            go(list(s.orelse) + rest, learn(s.test, False, st), trail + [(s, False)])
+            return
+        if isinstance(s, (ast.Return, ast.Raise, ast.Break)):
+            return
+        if isinstance(s, ast.Continue):
+            out.append((s, st, trail))
+            return
+        if isinstance(s, ast.Assign) and len(s.targets) == 1 and isinstance(s.targets[0], ast.Name):
+            if _is_matcher_call(s.value):
+                st = dict(st, **{s.targets[0].id: None})
+            elif s.targets[0].id in st:
+                st = {k: v for k, v in st.items() if k != s.targets[0].id}
+        go(rest, st, trail)
+    go(list(body), {}, [])
+    res = []
+    for ex, st, trail in out:
+        matched = any(v is True for v in st.values())
+        res.append((ex, matched, " -> ".join("%s%s" % ("" if t else "not ", src(i.test)[:40]) for i, t in trail[-3:])))
+    return res
+
+
 @rule("C01.progress", min_instances=6)
 def progress(ctx):
     """a successful match strictly advances the cursor, and every back edge of the lexing loops is reached only through a successful match (termination)"""
@@ -128,21 +182,24 @@ def progress(ctx):
     loop, casc = cascade(db)
     ctx.require(len(casc) >= 8, "cascade of Lexer.parse has only %d matchers" % len(casc))
     conts = [n for n in ast.walk(loop) if isinstance(n, ast.Continue)]
+    edges = _back_edges(loop.body)
     for c in conts:
+        mine = [(m_, d_) for x_, m_, d_ in edges if x_ is c]
         ifn = getattr(c, "_parent", None)
-        ok = isinstance(ifn, ast.If) and isinstance(ifn.test, ast.Call) and (dotted(ifn.test.func) or "").startswith("self.match_")
-        ctx.check(ok, "parse.continue@%s" % (dotted(ifn.test.func) if ok else c.lineno), db.where(c), "`continue` in the lexing loop not guarded by a successful matcher: the loop may spin without consuming", "guarded by a matcher")
-    last = loop.body[-1]
-    ctx.check(isinstance(last, ast.Raise), "parse.fallthrough-raises", db.where(last), "the lexing loop can fall through to its next iteration without any matcher having consumed text", "loop body ends with raise")
+        lab = dotted(ifn.test.func) if isinstance(ifn, ast.If) and _is_matcher_call(ifn.test) else str(conts.index(c))
+        ctx.check(bool(mine) and all(m_ for m_, d_ in mine), "parse.continue@%s" % lab, db.where(c), "`continue` in the lexing loop is reached on a path on which no matcher succeeded (%s): the loop may spin without consuming" % "; ".join(d_ for m_, d_ in mine if not m_), "reached only after a matcher succeeded")
+    fall = [(m_, d_) for x_, m_, d_ in edges if x_ is None]
+    ctx.check(all(m_ for m_, d_ in fall), "parse.fallthrough-raises", db.where(loop.body[-1]), "the lexing loop can fall through to its next iteration without any matcher having consumed text (%s)" % "; ".join(d_ for m_, d_ in fall if not m_), "the end of the loop body is reached only after a match (%d paths)" % len(fall))
     put = db.func("lexer.Lexer.parse_until_text")
     pl = [n for n in walk_func(put) if isinstance(n, ast.While)]
     ctx.require(pl, "parse_until_text has no loop")
-    mvars = {s.targets[0].id for s in walk_func(put) if isinstance(s, ast.Assign) and isinstance(s.targets[0], ast.Name) and isinstance(s.value, ast.Call) and dotted(s.value.func) == "self.match"}
-    for c in [n for n in ast.walk(pl[0]) if isinstance(n, ast.Continue)]:
-        ifn = getattr(c, "_parent", None)
-        ok = isinstance(ifn, ast.If) and ((isinstance(ifn.test, ast.Name) and ifn.test.id in mvars) or (isinstance(ifn.test, ast.Call) and dotted(ifn.test.func) == "self.match"))
-        ctx.check(ok, "scan.continue@%d" % (conts.index(c) if c in conts else c.lineno - pl[0].lineno), db.where(c), "`continue` in parse_until_text not guarded by `if match`", "guarded by a match")
-    ctx.check(isinstance(pl[0].body[-1], ast.Raise), "scan.fallthrough-raises", db.where(pl[0]), "parse_until_text can iterate without consuming", "loop body ends with raise")
+    edges = _back_edges(pl[0].body)
+    sconts = [n for n in ast.walk(pl[0]) if isinstance(n, ast.Continue)]
+    for c in sconts:
+        mine = [(m_, d_) for x_, m_, d_ in edges if x_ is c]
+        ctx.check(bool(mine) and all(m_ for m_, d_ in mine), "scan.continue@%d" % sconts.index(c), db.where(c), "`continue` in parse_until_text is reached on a path without a successful match (%s)" % "; ".join(d_ for m_, d_ in mine if not m_), "reached only after a match")
+    fall = [(m_, d_) for x_, m_, d_ in edges if x_ is None]
+    ctx.check(all(m_ for m_, d_ in fall), "scan.fallthrough-raises", db.where(pl[0]), "parse_until_text can iterate without consuming (%s)" % "; ".join(d_ for m_, d_ in fall if not m_), "the end of the loop body is reached only after a match (%d paths)" % len(fall))
     # the end-of-text bound is the length of the text that is lexed: nothing replaces self.text after the length was taken
     ps = db.func("lexer.Lexer.parse")
     gp = cfgmod.function_cfg(ps)
@@ -752,7 +809,14 @@ class _ScanLoop:
             return [("fall", new)]
         # the unfolded helper:  m, line = (mx, line[len(mx.group(0)):]) if mx else (None, line)
         env_ = {}
-        if isinstance(s, ast.Assign) and P.matches(s, "($m, %s) = ($mx, %s[len($mx.group(0)):]) if $mx else (None, %s)" % (var, var, var), env_) and isinstance(env_["mx"][1], ast.Name) and env_["mx"][1].id in st["m"]:
+        unfolded = False
+        if isinstance(s, ast.Assign):
+            for cut_ in ("len($mx.group(0))", "len($mx.group())", "$mx.end()"):
+                env_ = {}
+                if P.matches(s, "($m, %s) = ($mx, %s[%s:]) if $mx else (None, %s)" % (var, var, cut_, var), env_):
+                    unfolded = True
+                    break
+        if unfolded and isinstance(env_["mx"][1], ast.Name) and env_["mx"][1].id in st["m"]:
             pats, status, _c = st["m"][env_["mx"][1].id]
             self.sites += 0
             mv = src(env_["m"][1])
